@@ -5,7 +5,7 @@
 (* phrase starts with the requested nibbles) and the instantiation of      *)
 (* Vanity.tla with them.  Anchors: src/cmd/new.rs (Prefix, run).           *)
 (***************************************************************************)
-EXTENDS Bytes, Prim, Ecdsa, Bip39, HdPath, Bip32
+EXTENDS Bytes, Prim, Ecdsa, Bip39, HdPath, Bip32, Args
 
 \* "0x" then 1..40 hex digits of either case -> their values.  Open: no "0x", no digits, more than 40.
 ParsePrefix(cs) ==
@@ -32,14 +32,23 @@ LanguageOf(c) == IF "language" \in DOMAIN c THEN c.language ELSE ""
 LanguageOk(c) ==
   LET cs == StrToUtf8(LanguageOf(c))
   IN  cs = <<>> \/ [i \in 1..Len(cs) |-> IF cs[i] >= 65 /\ cs[i] <= 90 THEN cs[i] + 32 ELSE cs[i]] = StrToUtf8("english")
+\* The command line of `new`.  Without a style the line is written as every workload wrote it before Args.tla existed
+\* (-n, --language, -j, the vanity options in their long form, two tokens each); c.style = [opt, rev] writes every option
+\* in the spelling opt of Args!Styles, in the order below or its reverse.  The meaning is the same (MC_Args: NewRoundTrip).
+NewKeys == <<"language", "length", "prefix", "vpassword", "vindex", "vpath", "threads">>
+NewVal(c, key) == IF key = "language" THEN LanguageOf(c) ELSE c[key]
 NewArgv(c) ==
-  <<"new">> \o (IF LanguageOf(c) # "" THEN <<"--language", LanguageOf(c)>> ELSE <<>>)
-           \o (IF c.length # "" THEN <<"-n", c.length>> ELSE <<>>)
-           \o (IF c.prefix # "" THEN <<"--vanity-prefix", c.prefix>> ELSE <<>>)
-           \o (IF c.vpassword # "" THEN <<"--vanity-password", c.vpassword>> ELSE <<>>)
-           \o (IF c.vindex # "" THEN <<"--vanity-account-index", c.vindex>> ELSE <<>>)
-           \o (IF c.vpath # "" THEN <<"--vanity-hd-path", c.vpath>> ELSE <<>>)
-           \o (IF c.threads # "" THEN <<"-j", c.threads>> ELSE <<>>)
+  IF "style" \notin DOMAIN c THEN
+    <<"new">> \o (IF LanguageOf(c) # "" THEN <<"--language", LanguageOf(c)>> ELSE <<>>)
+             \o (IF c.length # "" THEN <<"-n", c.length>> ELSE <<>>)
+             \o (IF c.prefix # "" THEN <<"--vanity-prefix", c.prefix>> ELSE <<>>)
+             \o (IF c.vpassword # "" THEN <<"--vanity-password", c.vpassword>> ELSE <<>>)
+             \o (IF c.vindex # "" THEN <<"--vanity-account-index", c.vindex>> ELSE <<>>)
+             \o (IF c.vpath # "" THEN <<"--vanity-hd-path", c.vpath>> ELSE <<>>)
+             \o (IF c.threads # "" THEN <<"-j", c.threads>> ELSE <<>>)
+  ELSE
+    <<"new">> \o Concat([i \in 1..7 |-> LET key == NewKeys[IF c.style.rev THEN 8 - i ELSE i] IN
+                                         IF NewVal(c, key) # "" THEN RenderOpt(key, NewVal(c, key), c.style.opt) ELSE <<>>])
 
 VN == INSTANCE Vanity WITH Matches <- ConcreteMatches, Supported <- ConcreteSupported
 =============================================================================
